@@ -234,6 +234,9 @@ impl Prop for C14Prop {
     }
 
     fn gen(&self, rng: &mut Rng, tier: Tier) -> Scenario {
+        if rng.chance(1, 4) {
+            return Scenario::Link(gen_reader_twin(rng, tier));
+        }
         let buf = match rng.below(4) {
             0 => BufKind::Vec,
             1 => BufKind::Arr(*rng.pick(&LADDER[..20])),
@@ -268,6 +271,9 @@ impl Prop for C14Prop {
 
     fn exec(&self, scn: &Scenario, st: &mut Stats) -> Outcome {
         let l = link(scn);
+        if l.sub == "reader-twin" {
+            return exec_reader_twin(l, st);
+        }
         let built = build_stream(&l.segs);
         count_wire_faults(st, &built);
         let stream = &built.stream;
@@ -332,3 +338,99 @@ impl Prop for C14Prop {
 
 #[allow(dead_code)]
 fn unused(_: Hx, _: Seg) {}
+
+// ---------------------------------------------------------------------------
+// the same statement for the decoder inside a reader: whenever the reader has delivered a
+// transmission, reported a decode error that ends one, or reset its decoder because the source
+// failed (hard error, transient end of input), it treats what follows like a new reader would
+// ---------------------------------------------------------------------------
+
+fn gen_reader_twin(rng: &mut Rng, tier: Tier) -> LinkScn {
+    let fe = *rng.pick(&[Fe::RdIo, Fe::RdIo, Fe::RdEh, Fe::RdIter, Fe::RdSlice]);
+    let buf = match rng.below(3) {
+        0 => BufKind::Vec,
+        1 => BufKind::Arr(*rng.pick(&[8usize, 16, 24, 40])),
+        _ => BufKind::Arr(1024),
+    };
+    let mut l = LinkScn::new("C14", "reader-twin", fe, buf);
+    let mut mix = StreamMix::draw(rng, 120);
+    mix.max_segs = rng.range(2, 5);
+    l.segs = gen::gen_segs(rng, tier, &mix);
+    let len = build_stream(&l.segs).stream.len();
+    if matches!(fe, Fe::RdIo | Fe::RdEh) {
+        let kinds: &[fe::SrcFault] = if fe == Fe::RdIo {
+            &[fe::SrcFault::WouldBlock, fe::SrcFault::Interrupted, fe::SrcFault::Other(0), fe::SrcFault::Other(0), fe::SrcFault::Eof(0), fe::SrcFault::Eof(0)]
+        } else {
+            &[fe::SrcFault::WouldBlock, fe::SrcFault::Other(0), fe::SrcFault::Other(0)]
+        };
+        let n = rng.range(1, 4);
+        let mut src = gen::gen_src_faults(rng, len, n, kinds);
+        let marks = gen::marks_of(&l.segs);
+        gen::bias_src(rng, &mut src, &marks);
+        // one fault per position: which faults are still pending at a boundary is then a matter
+        // of positions alone
+        src.dedup_by_key(|(p, _)| *p);
+        l.src = src;
+    }
+    let kind = *rng.pick(&[fe::CallKind::Next, fe::CallKind::Next, fe::CallKind::Read, fe::CallKind::NextNb, fe::CallKind::ReadNb]);
+    l.calls = vec![fe::Call { kind, target: fe::Target::Bytes, max_events: None }];
+    l.extra_polls = rng.below(3);
+    l
+}
+
+fn exec_reader_twin(l: &LinkScn, st: &mut Stats) -> Outcome {
+    let built = build_stream(&l.segs);
+    count_wire_faults(st, &built);
+    let stream = &built.stream;
+    let plan = fe::AppPlan { calls: &l.calls, extra_polls: l.extra_polls, alloc_fail: 0 };
+    let src = fe::SrcState::new(stream, &l.src);
+    let (obs, _) = fe::run_reader(l.fe, l.buf, &src, &plan, false);
+    st.add("fault", "source-fault", src.fired.get() as u64);
+    let mut violation = None;
+    let mut checked = 0;
+    for (k, o) in obs.iter().enumerate() {
+        if checked >= 3 || o.pos >= stream.len() {
+            break;
+        }
+        // a boundary: the decoder inside the reader is idle again
+        let (kind, by_source) = match &o.item {
+            Item::Msg(_) => ("delivered", false),
+            Item::Dec(DErr::InvalidMsg { .. }) => ("invalid-message", false),
+            Item::Dec(DErr::InvalidEsc(_)) => ("invalid-esc", false),
+            Item::Dec(DErr::Oom) => ("out-of-memory", false),
+            Item::Io(IoKind::Other(_), _) => ("source-error", true),
+            Item::Io(IoKind::Eof, _) | Item::End => ("transient-end-of-input", true),
+            _ => continue,
+        };
+        let p = o.pos;
+        // faults not yet delivered at this point (one per position): a boundary reached by a byte
+        // leaves the fault *at* the read position pending, one reached by a fault consumed it
+        let pending: Vec<(usize, fe::SrcFault)> = l.src.iter().filter(|(q, _)| if by_source { *q > p } else { *q >= p }).map(|(q, f)| (*q - p, *f)).collect();
+        if by_source && !l.src.iter().any(|(q, f)| *q == p && matches!(f, fe::SrcFault::Other(_) | fe::SrcFault::Eof(_))) {
+            continue;
+        }
+        let src2 = fe::SrcState::new(&stream[p..], &pending);
+        let (twin, _) = fe::run_reader(l.fe, l.buf, &src2, &plan, false);
+        let rest: Vec<(usize, &Item)> = obs[k + 1..].iter().map(|x| (x.pos - p, &x.item)).collect();
+        let fresh: Vec<(usize, &Item)> = twin.iter().map(|x| (x.pos, &x.item)).collect();
+        checked += 1;
+        st.add_dyn(format!("probe.reader-boundary.{}", kind), 1);
+        if rest != fresh {
+            let i = rest.iter().zip(fresh.iter()).position(|(a, b)| a != b).unwrap_or(rest.len().min(fresh.len()));
+            violation = Some(Violation::oracle(
+                "C14.reader-twin-divergence",
+                format!(
+                    "{} / {:?}: after the boundary '{}' at offset {} the reader continued with {} but a new reader over the remaining bytes (and the remaining source faults) reports {}",
+                    l.fe.name(),
+                    l.buf,
+                    kind,
+                    p,
+                    rest.get(i).map(|(q, it)| format!("{}@{}", it.short(), q + p)).unwrap_or_else(|| "nothing more".into()),
+                    fresh.get(i).map(|(q, it)| format!("{}@{}", it.short(), q + p)).unwrap_or_else(|| "nothing more".into()),
+                ),
+            ));
+            break;
+        }
+    }
+    finish(st, &obs, violation, checked >= 1, (stream.len() * (1 + checked)) as u64)
+}
